@@ -391,6 +391,24 @@ def run(chk, n_asts, maxdepth, vm_n, nonconst_n):
         if r4 != [[wire_tok(t) for t in toks]]:
             chk.disagree(dict(matcher=v), [wire_tok(t) for t in toks], r4, where="cb_lex (render ts ws) differs from ts")
     chk.extra["token_level_cases"] = n_tok
+    # continued / commented layouts: the text finally handed to ast.parse must still lex to map tr of the Casbin
+    # tokens (string literals character for character) - SPEC only, the join itself is C02_continuation_join
+    n_multi = 0
+    for c in cases:
+        if has_eval(expr_from_json(c["ast"])) or c["layout"] not in ("cont", "comment") or bracket_last_line(c["lines"]):
+            continue
+        sh, ast, subs, reqs, text = case_parts(c)
+        want = tr_expected(tokens_of(ast))
+        n_multi += 1
+        try:
+            real = real_python_tokens(real_final_text(text, "m" + sh.sfx))
+        except Exception as exc:  # noqa
+            real = ["EXC", type(exc).__name__]
+        if real != want:
+            chk.spec_fail(dict(c, requests=c["requests"][:1]), real, want,
+                          "Python's tokenizer on the pipeline output of a continued/commented matcher does not yield map tr "
+                          "of the Casbin tokens (layout changed the expression)")
+    chk.extra["token_level_cases_multiline"] = n_multi
     # the hypotheses of C02_pipeline_tokens(_ast) hold on the generated cases (wf_tokens, admissible), and
     # Gallina's render agrees with the harness renderer
     hyp = [c for c in tok_cases if c.get("gaps")]
